@@ -3,6 +3,7 @@
   are listed and extracted exactly as by a standard tar reader.
 -/
 import HvProofs.Vmtar
+import HvProofs.VmtarEnc
 import HvProofs.Basic
 namespace Hv.C20
 open Hv Hv.Vmtar
@@ -61,6 +62,55 @@ theorem plain_tar_unchanged (f : File) (hp : PlainArchive f) : list f true = lis
     the visor-aware reader returns or raises — the model never runs out of its fuel `size/512 + 2`. -/
 theorem vmtar_listing_terminates (f : File) : list f true ≠ .nonTermination :=
   listFrom_terminates f _ _ _ _ (Nat.zero_le _) (by simp [listFuel, BLOCK])
+
+/-- **vmtar_members_roundtrip** (the writer `Hv.VmtarEnc.encode`): for EVERY member list `ms` — visor members whose data
+    lives in a data area (`visor = some off`, `off ≠ 0`), visor members without a data area (`some 0`) and ustar members
+    (`none`) with their data inline, directories, empty files; names ≤ 100 bytes without NUL, sizes < 8^11, mode / uid /
+    gid < 8^7, mtime < 8^11, NUL-terminated octal fields, computed checksums — and every layout `L` (file size, gap bytes)
+    with the data areas anywhere behind the two end-of-archive blocks, in any order, with gaps, pairwise disjoint
+    (`WF ms L`, decidable: `wfb`), the visor-aware reader lists exactly the members written — name (directories without
+    their trailing slashes), type, size, mode, uid, gid, mtime, visor flag, recorded offset, `offset` = position of the
+    header block, `offset_data` = the recorded offset, resp. header + 512 for inline members (`expected`, `expMember`) —
+    and `extractfile(m).read()` returns the stored bytes of every file (`none` for directories). -/
+theorem vmtar_members_roundtrip (ms : List MemberSpec) (L : Layout) (h : WF ms L) :
+    list (encode ms L) true = .ok (expected 0 ms) ∧
+    (expected 0 ms).map (extract (encode ms L)) = ms.map MemberSpec.stored := by
+  have he := encode_encodes ms L h
+  exact ⟨list_of_encodes _ ms ((wf_iff ms L).mp h).2.1 he, extract_enc _ ms 0 he.hdr he.data⟩
+
+/-- the same for ANY file that stores the archive (`Encodes`: header section + end-of-archive blocks at 0, every data
+    area's bytes at its recorded offset) — data areas may then also overlap or be shared between members. -/
+theorem vmtar_members_roundtrip_file (f : File) (ms : List MemberSpec) (hok : ∀ m ∈ ms, memberOK m = true)
+    (he : Encodes f ms) :
+    list f true = .ok (expected 0 ms) ∧ (expected 0 ms).map (extract f) = ms.map MemberSpec.stored :=
+  ⟨list_of_encodes f ms hok he, extract_enc f ms 0 he.hdr he.data⟩
+
+/-- what `expected` says, member by member: the `i`-th listed member is the `i`-th written one, its header at the sum of
+    the encoded lengths of its predecessors (512 each, plus the padded inline data) -/
+theorem vmtar_expected_member (ms : List MemberSpec) (i : Nat) (hi : i < ms.length) :
+    (expected 0 ms).length = ms.length ∧
+    ∃ e, (expected 0 ms)[i]? = some e ∧ e.offset = (hdrSection (ms.take i)).length ∧
+      e.name = ms[i].listedName ∧ e.hdr.typ = ms[i].typ ∧ e.hdr.size = (ms[i].data.length : Int) ∧
+      e.hdr.isVisor = ms[i].visor.isSome ∧ e.hdr.vOffset = ms[i].visor.getD 0 ∧
+      e.offsetData = (if ms[i].inline then (((hdrSection (ms.take i)).length + 512 : Nat) : Int)
+                      else ((ms[i].visor.getD 0 : Nat) : Int)) := by
+  refine ⟨expected_length ms 0, expMember (0 + (hdrSection (ms.take i)).length) ms[i], ?_, ?_⟩
+  · rw [← expected_getElem ms 0 i hi]
+    exact List.getElem?_eq_getElem _
+  · simp [expMember, expHdr]
+
+/-! non-vacuity of the round trip: five members — a visor file whose 3 data bytes sit at the unaligned offset 4200, a
+    ustar directory `d/`, a ustar file with 2 inline bytes, a visor file whose data area (4100) lies BEFORE the first
+    one's, an empty visor file without data area — in a 4300-byte file with garbage in the gaps. -/
+def rtMembers : List MemberSpec :=
+  [ { name := [97], isDir := false, visor := some 4200, data := [1, 2, 3] },
+    { name := [100, 47], isDir := true, visor := none, data := [] },
+    { name := [98], isDir := false, visor := none, data := [7, 8], mode := 0o755, uid := 1000, gid := 100, mtime := 1700000000 },
+    { name := [99], isDir := false, visor := some 4100, data := [9] },
+    { name := [101], isDir := false, visor := some 0, data := [] } ]
+def rtLayout : Layout := ⟨4300, fun i => UInt8.ofNat (i + 1)⟩
+
+example : WF rtMembers rtLayout := by decide +kernel
 
 /-! non-vacuity: a concrete archive (visor member with its data in a trailing data area, a directory, an
     inline ustar member) on which the hypotheses of the theorems hold and the listing is what was written -/
